@@ -76,7 +76,7 @@ def _explore_case(args):
     def summarize(eng_, r, err):
         env = holder.get('env')
         dec = eng.decisions
-        h = hashlib.sha1(repr([(d[0], d[1].get_id() if hasattr(d[1], 'get_id') else d[1], d[2])
+        h = hashlib.sha1(repr([(d[0], d[1].hash() if hasattr(d[1], 'hash') else d[1], d[2])
                                for d in dec]).encode()).hexdigest()
         rec = dict(hash=h, error=None if err in (None, 'abort') else err, aborted=(err == 'abort'),
                    claims=env.claims if env else 0, proved=env.proved if env else 0,
